@@ -824,7 +824,7 @@ func c10Prop(t *rapid.T) {
 }
 
 func TestC10(t *testing.T) {
-	evid.Extra("rule", "C10: rapid state machine of create/update/get/delete/query/list/history/last calls with generated releases over 2-4 generated release names x four revision numbers drawn from 1..101 (often with different digit counts), including updates that write back a release object exactly as Query/List/Get of that backend returned it with only the status changed, re-creation of a stored release with identical content, and updates that change nothing but the user labels, run in lock-step on the memory, Secret and ConfigMap backends and a reference map; after every call error classes, returned releases and result sets are compared, followed by a full scan. Non-trivial = the sequence contains a call whose precondition fails (create existing / get, update, delete missing) and a status query after a status-changing update, or uses a release name containing a dot; distinct by (names, call sequence).")
+	evid.Extra("rule", "C10: rapid state machine of create/update/get/delete/query/list/history/last calls with generated releases over 2-4 generated release names x four revision numbers drawn from 1..101 (often with different digit counts), including creates that the API server rejects (which must fail and change nothing), updates that write back a release object exactly as Query/List/Get of that backend returned it with only the status changed, re-creation of a stored release with identical content, and updates that change nothing but the user labels, run in lock-step on the memory, Secret and ConfigMap backends and a reference map; after every call error classes, returned releases and result sets are compared (the canonical form of a release carries the nanoseconds of every timestamp, computed without Helm's JSON encoder), followed by a full scan. Non-trivial = the sequence contains a call whose precondition fails (create existing / get, update, delete missing) and a status query after a status-changing update, or uses a release name containing a dot; distinct by (names, call sequence).")
 	evid.Extra("assumptions", []string{
 		"Secret/ConfigMap backends run over client-go's fake clientset (no real API server, no size limit of 1 MiB per object enforced)",
 		"integers in values are limited to |n| <= 2^53 (the record format is JSON; larger integers are not representable)",
